@@ -31,6 +31,19 @@ class SyncReplyTransport(sk.proto_helpers.StringTransport):
             self.proto.dataReceived(b"\x05\x00")
 
 
+class HelloApp(sk.protocol.Protocol):
+    """an application protocol that speaks first (as TLS or an HTTP client does)"""
+    def connectionMade(self):
+        self.transport.write(b"APPHELLO")
+
+
+class HelloFactory(sk.protocol.Factory):
+    protocol = HelloApp
+
+
+REPLY_OK = b"\x05\x00\x00\x01\x01\x02\x03\x04\x00\x50"
+
+
 def vector(req, kind, host, port, sel="ok"):
     """run one request through the public entry point and record what was written: before the server's
     method selection (first), after a partial selection message (mid), after the whole of it (second)"""
@@ -41,7 +54,7 @@ def vector(req, kind, host, port, sel="ok"):
     err = False
     try:
         if req == "CONNECT":
-            d = socks.TorSocksEndpoint(ep, host, port).connect(sk.AppFactory())
+            d = socks.TorSocksEndpoint(ep, host, port).connect(HelloFactory() if sel == "coalesced" else sk.AppFactory())
         elif req == "RESOLVE":
             d = socks.resolve(ep, host)
         else:
@@ -61,6 +74,10 @@ def vector(req, kind, host, port, sel="ok"):
             ep.tr.write = lambda data, tr=ep.tr: sk.proto_helpers.StringTransport.write(tr, data)
             sk.proto_helpers.StringTransport.write(ep.tr, first)
         chunks = SELECT.get(sel, [])
+        if sel == "coalesced":
+            # the selection and the (successful) answer to the request arrive in one segment; the application
+            # protocol writes as soon as it is connected: its bytes come after the request, never before
+            chunks = [b"\x05\x00" + REPLY_OK]
         try:
             for i, c in enumerate(chunks):
                 ep.proto.dataReceived(c)
@@ -70,6 +87,8 @@ def vector(req, kind, host, port, sel="ok"):
             err = True
             ep.proto.connectionLost(failure.Failure(error.ConnectionLost("after exception")))
         second = ep.tr.value()[len(first):]
+        if sel == "coalesced" and second.endswith(b"APPHELLO"):
+            second = second[:-8]
         if sel == "sync":
             second = second_sync + second
     if fired and isinstance(fired[0], failure.Failure):
